@@ -189,13 +189,14 @@ def _helper_job(helper: str, cfg: Dict[str, Any]) -> Callable[[], Record]:
             n_float_args = cfg.get("float_args", 1)
             nargs: Tuple[Any, ...] = {0: (idx,), 1: (prev, idx), 2: (prev, x)}[n_float_args]
             target = opaque(ctx, "target_N") if helper != "prune_selected_nodes" else ("selected_fn" if cfg["selected"] else "kept_fn")
-            node = g.add("call_function", target, nargs, {}, name="N")
+            node = g.add("call_function", target, nargs, {}, name=_names(cfg)[0])
             a, k = USER_SHAPES[cfg.get("user", "positional")](node, prev)
             cons = g.add("call_function", "consumer", a, k, name="consumer")
-            g.add("output", "output", ((cons,),), {}, name="output")
+            g.add("output", "output", ((cons,),), {}, name=_names(cfg)[1])
             for n in g.nodes:
                 n.meta["clean_name"] = n.name
-                n.meta["outputs_float_tensor"] = n.name not in ("idx",)
+                # (the fx output node returns a tuple: _get_tracking_meta records False for it)
+                n.meta["outputs_float_tensor"] = n.name not in ("idx",) and n.op != "output"
             node.meta["outputs_float_tensor"] = cfg.get("node_is_float", True)
             rtol = pos_real(ctx, "rtol")
             if helper == "prune_same_scale_tensors":
@@ -235,7 +236,8 @@ def _helper_job(helper: str, cfg: Dict[str, Any]) -> Callable[[], Record]:
             else:
                 ctx.oblige(f"{tag}:returns_the_same_graph_object{cs}", out is g)
             names = [n.name for n in out.nodes]
-            removed = "N" not in names
+            nN, nOut = _names(cfg)
+            removed = nN not in names
             # ---- which nodes must go
             if helper == "prune_non_float_tensors":
                 must = not cfg["node_is_float"]
@@ -262,7 +264,7 @@ def _helper_job(helper: str, cfg: Dict[str, Any]) -> Callable[[], Record]:
                     elif (bN is None) != (bA is None):
                         cond = z3.BoolVal(False)
                     ctx.oblige(f"{tag}:node_removed_iff_same_scale_within_rtol{cs}", cond if removed else z3.Not(cond), removed=removed)
-            ctx.oblige(f"{tag}:surviving_nodes_keep_their_order_and_nothing_is_added{cs}", names == [n for n in ["x", "idx", "earlier", "N", "consumer", "output"] if (n != "N" or not removed) and not (n == "idx" and helper == "prune_non_float_tensors")], names=names)
+            ctx.oblige(f"{tag}:surviving_nodes_keep_their_order_and_nothing_is_added{cs}", names == [n for n in ["x", "idx", "earlier", nN, "consumer", nOut] if (n != nN or not removed) and not (n == "idx" and helper == "prune_non_float_tensors")], names=names)
             if removed:
                 c2 = next(n for n in out.nodes if n.name == "consumer")
                 e2 = next(n for n in out.nodes if n.name == "earlier")
@@ -281,6 +283,13 @@ def _helper_job(helper: str, cfg: Dict[str, Any]) -> Callable[[], Record]:
         return run_config(qual, cfg, build, post, max_paths=64)
 
     return run
+
+
+def _names(cfg: Dict[str, Any]) -> Tuple[str, str]:
+    """(name of the generic node, name of the fx output node).  TorchDynamo names nodes after
+    the user's variables: a module that assigns a variable called `output` yields a
+    call_function node named `output` and an output node named `output_1`."""
+    return ("output", "output_1") if cfg.get("names") == "user_variable_called_output" else ("N", "output")
 
 
 def map_arg_plain(a: Any, rep: Any) -> Any:
@@ -310,3 +319,11 @@ for _u in _USERS:
         for _fa in (1, 2):
             _c = {"node_is_float": True, "float_args": _fa, "user": _u, "bwd": _bwd}
             register(Job("c19:prune_same_scale_tensors[" + ",".join(f"{k}={_c[k]}" for k in sorted(_c)) + "]", ["C19"], TS + "prune_same_scale_tensors", _c, _helper_job("prune_same_scale_tensors", _c)))
+for _nf in (True, False):
+    _c = {"node_is_float": _nf, "float_args": 1, "user": "positional", "names": "user_variable_called_output"}
+    register(Job("c19:prune_non_float_tensors[" + ",".join(f"{k}={_c[k]}" for k in sorted(_c)) + "]", ["C19"], TS + "prune_non_float_tensors", _c, _helper_job("prune_non_float_tensors", _c)))
+for _sel in (True, False):
+    _c = {"selected": _sel, "user": "positional", "names": "user_variable_called_output"}
+    register(Job("c19:prune_selected_nodes[" + ",".join(f"{k}={_c[k]}" for k in sorted(_c)) + "]", ["C19"], TS + "prune_selected_nodes", _c, _helper_job("prune_selected_nodes", _c)))
+_c = {"node_is_float": True, "float_args": 1, "user": "positional", "bwd": "both", "names": "user_variable_called_output"}
+register(Job("c19:prune_same_scale_tensors[" + ",".join(f"{k}={_c[k]}" for k in sorted(_c)) + "]", ["C19"], TS + "prune_same_scale_tensors", _c, _helper_job("prune_same_scale_tensors", _c)))
